@@ -224,7 +224,7 @@ def sany(module):
 def validate_traces(trace_module, files, cfg=None, timeout=3600, heap="3g", extra_env=None, max_par=None):
     """Run one single-worker TLC per trace shard (env TRACE=<file>), in parallel.
     Returns (list of TlcResult, all decoded MISMATCH records, number of accepted events)."""
-    max_par = max_par or min(NCPU, 16)
+    max_par = max_par or min(NCPU, 14)
     results = []
 
     def one(f):
